@@ -58,9 +58,11 @@ add("C09",
     "Coq theorems: the staged logical view after any resolved cp/mv/rm/reset equals an abstract cp/mv/rm/reset specification "
     "(no manifest, no content paths); every staged path of every reachable staged object is backed by its own staged file or by "
     "committed content; no file/directory conflicts; removed paths absent; reset restores the previous entry; a failing source "
-    "changes nothing and leaves the object well formed. Correspondence: per-step refinement including the destination rules of "
+    "changes nothing and leaves the object well formed; a reset of several paths is the fold of the single-path resets over all named "
+    "paths whether or not it reports a failure, and leaves the object well formed. Correspondence: per-step refinement including the destination rules of "
     "external and internal cp/mv (files, directories, globs, recursive or not, one/many sources, trailing slash, root). Search: listing = "
-    "staged inventory, every staged path readable with the ingested bytes, staged files present, objects committable at the end.",
+    "staged inventory, every staged path readable with the ingested bytes, staged files present, objects committable at the end, "
+    "a reset that reports a failure restored every named path nothing blocks.",
     "Trusted as C01. globset syntax beyond literal/*/? is not generated; hash-order dependent steps are accepted if some order "
     "reproduces the observation (counted in the evidence).",
     "machine-checked proof in Coq (refinement to an abstract spec + invariants) + per-step refinement correspondence")
